@@ -109,6 +109,8 @@ pub struct Ctx {
     pub max_shrink_iters: u32,
     pub harness_errors: Vec<String>,
     pub known_printed: Vec<String>,
+    /// cases left out because they killed the process inside libbz2 in an earlier attempt of this run
+    pub skipped_crashing: u64,
 }
 
 #[derive(Clone, Debug)]
@@ -165,13 +167,48 @@ pub fn diag(msg: &str) {
     }
 }
 
-extern "C" fn on_fatal(sig: libc::c_int) {
+thread_local! {
+    /// slot of this worker thread in INFLIGHT (usize::MAX = not a worker thread)
+    pub static MY_SLOT: std::cell::Cell<usize> = const { std::cell::Cell::new(usize::MAX) };
+}
+extern "C" {
+    // entry points of the bundled libbz2 (C code of the bzip2-sys dependency): used only to tell whether a
+    // fatal signal was raised inside that library (known finding C05/bzip2-c-decoder-uninitialised-read)
+    fn BZ2_decompress();
+    fn BZ2_bzDecompress();
+}
+/// cases (driver index << 48 | case index + 1) to leave out: they crashed the process inside libbz2 in
+/// an earlier attempt of this run (set by the supervisor through ZV_SKIP)
+pub fn skip_list() -> &'static Vec<u64> {
+    static L: std::sync::OnceLock<Vec<u64>> = std::sync::OnceLock::new();
+    L.get_or_init(|| std::env::var("ZV_SKIP").ok().map(|s| s.split(',').filter_map(|x| x.trim().parse().ok()).collect()).unwrap_or_default())
+}
+
+extern "C" fn on_fatal(sig: libc::c_int, _info: *mut libc::siginfo_t, uctx: *mut libc::c_void) {
     let fd = INFLIGHT_FD.load(Ordering::Relaxed);
     if fd != u64::MAX {
-        let mut buf = [0u8; SLOTS * 8];
+        let mut buf = [0u8; SLOTS * 8 + 16];
         for (i, s) in INFLIGHT.iter().enumerate() {
             buf[i * 8..i * 8 + 8].copy_from_slice(&s.load(Ordering::Relaxed).to_le_bytes());
         }
+        // which case was this thread running, and did the fault happen inside libbz2?
+        let slot = MY_SLOT.try_with(|c| c.get()).unwrap_or(usize::MAX);
+        let mine = if slot < SLOTS { INFLIGHT[slot].load(Ordering::Relaxed) } else { 0 };
+        let mut in_bz2 = 0u64;
+        #[cfg(all(target_arch = "x86_64", target_os = "linux"))]
+        unsafe {
+            if !uctx.is_null() {
+                let uc = uctx as *mut libc::ucontext_t;
+                let rip = (*uc).uc_mcontext.gregs[libc::REG_RIP as usize] as usize;
+                let a = BZ2_decompress as usize;
+                let b = BZ2_bzDecompress as usize;
+                if (rip >= a && rip < a + 0x3000) || (rip >= b && rip < b + 0x1000) {
+                    in_bz2 = 1;
+                }
+            }
+        }
+        buf[SLOTS * 8..SLOTS * 8 + 8].copy_from_slice(&mine.to_le_bytes());
+        buf[SLOTS * 8 + 8..SLOTS * 8 + 16].copy_from_slice(&in_bz2.to_le_bytes());
         unsafe {
             libc::write(fd as libc::c_int, buf.as_ptr() as *const libc::c_void, buf.len());
             libc::fsync(fd as libc::c_int);
@@ -190,7 +227,11 @@ pub fn install_fatal_handlers(path: &std::path::Path) {
     }
     unsafe {
         for sig in [libc::SIGABRT, libc::SIGSEGV, libc::SIGBUS, libc::SIGILL, libc::SIGFPE] {
-            libc::signal(sig, on_fatal as usize);
+            let mut sa: libc::sigaction = std::mem::zeroed();
+            sa.sa_sigaction = on_fatal as usize;
+            sa.sa_flags = libc::SA_SIGINFO;
+            libc::sigemptyset(&mut sa.sa_mask);
+            libc::sigaction(sig, &sa, std::ptr::null_mut());
         }
     }
 }
@@ -212,6 +253,7 @@ struct Local {
     samples: Vec<(u64, Value)>,
     known: BTreeMap<&'static str, (u64, String, u64, Value)>,
     fail: Option<(u64, Value, String)>,
+    skipped: u64,
 }
 impl Local {
     fn new() -> Self {
@@ -222,6 +264,7 @@ impl Local {
             samples: Vec::new(),
             known: BTreeMap::new(),
             fail: None,
+            skipped: 0,
         }
     }
 }
@@ -262,6 +305,7 @@ impl Ctx {
             max_shrink_iters: 2048,
             harness_errors: Vec::new(),
             known_printed: Vec::new(),
+            skipped_crashing: 0,
         }
     }
 
@@ -484,6 +528,7 @@ impl Ctx {
                     .stack_size(64 << 20)
                     .spawn_scoped(sc, move || {
                         let mut loc = Local::new();
+                        MY_SLOT.with(|c| c.set(tid));
                         let st = init();
                         'outer: loop {
                             let base = next.fetch_add(chunk, Ordering::Relaxed);
@@ -494,7 +539,12 @@ impl Ctx {
                                 if stop.load(Ordering::Relaxed) && idx > best_fail.load(Ordering::Relaxed) {
                                     break 'outer;
                                 }
-                                INFLIGHT[tid].store(((my_index as u64) << 48) | (idx + 1), Ordering::Relaxed);
+                                let tag = ((my_index as u64) << 48) | (idx + 1);
+                                if skip_list().contains(&tag) {
+                                    loc.skipped += 1;
+                                    continue;
+                                }
+                                INFLIGHT[tid].store(tag, Ordering::Relaxed);
                                 let mut first = |c: &C, info: &Info, v: &Verdict| {
                                     loc.evaluations += 1;
                                     for l in &info.labels {
@@ -534,6 +584,7 @@ impl Ctx {
         let mut dsamples: Vec<(u64, Value)> = Vec::new();
         for l in locals {
             evals += l.evaluations;
+            self.skipped_crashing += l.skipped;
             self.nontrivial.extend(l.nontrivial);
             for (k, v) in l.classes {
                 *self.classes.entry(format!("{driver}:{k}")).or_insert(0) += v;
@@ -660,6 +711,7 @@ impl Ctx {
         for (k, v) in &self.extra {
             coverage.insert(k.clone(), v.clone());
         }
+        coverage.insert("excluded_by_known_finding".into(), json!({"bzip2-c-decoder-uninitialised-read (cases that killed the worker inside libbz2 and were left out on the retry)": self.skipped_crashing}));
         let ev = json!({
             "property_id": self.prop,
             "tier": self.tier.name(),
